@@ -206,6 +206,20 @@ def c2_effects(fb, rep):
                 ce, pol = strip_not(c)
                 start = t if ce.get('op') == '!=' else fl
                 out += G.arm_statements(f, start, join)
+                # the values those updates use: definitions of the locals declared inside the region (e.g. the material value
+                # of the removed piece) must agree too, not only the statements that consume them
+                from ..core import canonical
+                names = f.alpha_names()
+                with canonical(f):
+                    for b_ in sorted(G.region(f, start, join)):
+                        for e_ in f.blocks[b_]['ev']:
+                            if e_.get('k') == 'decl':
+                                for v_ in e_.get('vars', []):
+                                    if v_.get('init') is not None:
+                                        s_ = 'def ' + show(v_['init'], 300)
+                                        for vid in rp:
+                                            s_ = s_.replace(names.get(vid, '\0'), '$removed')
+                                        out.append(s_)
             return sorted(out)
         ra, rb = removed_region(sp), removed_region(cp)
         rep.ob(clause, 'K10 sibling agreement', 'clearPiece and setPiece apply the same removed-piece updates', ra == rb and bool(ra), cp.where,
